@@ -118,10 +118,11 @@ def is_nonzero(p):
 def classify_int(text, radix):
     """-> (ring, value): ring 'core' ([+-]? digits of the radix+): MUST give value; 'open' (UNSPECIFIED: may give null or value):
     white-space padded core text, a 0x/0o/0b prefix matching the radix, radix 10 and a decimal text with an empty or all-zero
-    fraction; 'reject': MUST give null."""
+    fraction, upper-case letter digits; 'reject': MUST give null."""
     v = _int_core(text, radix)
     if v is not None:
-        return 'core', v
+        # upper-case letter digits are customary but not stated anywhere: open
+        return ('core' if text == text.lower() else 'open'), v
     stripped = text.strip(_WS)
     body = stripped
     sign = 1
